@@ -105,7 +105,9 @@ class GcodeHandlers(object):
 
         # Compute the number of segments to produce based on the length of the arc
         arcLength = abs(angularTravel) * radius
-        numSegments = int(math.ceil(arcLength / MM_PER_ARC_SEGMENT))
+        # Always generate at least one segment (the end point), a degenerate arc with no angular
+        # travel would otherwise cause a division by zero below
+        numSegments = max(1, int(math.ceil(arcLength / MM_PER_ARC_SEGMENT)))
 
         angle = math.atan2(-j, -i)
         angularIncrement = angularTravel / numSegments
